@@ -76,6 +76,25 @@ func c04AmbHistories(mode int) (hists [][]core.Op, names []string, queries []cor
 			}
 		}
 	}
+	if mode == core.KV {
+		// the same KEY NAMES in two buckets: a cross-bucket move must look each key up in its own bucket
+		for _, bp := range [][2]string{{"a", "ab"}, {"ab", "a"}, {"", "a"}} {
+			b1, b2 := bp[0], bp[1]
+			for _, q := range []core.Call{{F: "SMembers", B: b1, K: "src"}, {F: "SMembers", B: b1, K: "dst"}, {F: "SMembers", B: b2, K: "dst"}, {F: "SMembers", B: b2, K: "src"}} {
+				addQ(q)
+			}
+			h := []core.Op{
+				up(core.Call{F: "SAdd", B: b1, K: "src", Vs: []string{"x"}}), up(core.Call{F: "SAdd", B: b1, K: "dst", Vs: []string{"x"}}),
+				up(core.Call{F: "SAdd", B: b2, K: "dst", Vs: []string{"y"}}), up(core.Call{F: "SAdd", B: b2, K: "src", Vs: []string{"x"}}),
+				up(core.Call{F: "SMoveByTwoBuckets", B: b1, K: "src", B2: b2, K2: "dst", V: "x"}),
+				{Kind: "reopen"},
+				up(core.Call{F: "SMoveByTwoBuckets", B: b2, K: "src", B2: b1, K2: "src", V: "x"}),
+				{Kind: "reopen"},
+			}
+			hists = append(hists, h)
+			names = append(names, fmt.Sprintf("cross-bucket SMove with equal key names in %q and %q", b1, b2))
+		}
+	}
 	return
 }
 
